@@ -519,7 +519,7 @@ func c16precreate(c *an.Ctx) {
 							return false
 						}
 						f := an.StaticCallee(call)
-						return f != nil && f.Name() == "lookupdHTTPAddrs"
+						return f != nil && an.BaseName(f) == "lookupdHTTPAddrs"
 					})
 					if !ok {
 						continue
